@@ -20,7 +20,7 @@ PROPERTY = "C18"
 KEYS = ["linear:F_bias_kw", "linear:nn", "matmul:param", "gelu:F", "silu:F", "softmax:nn", "dropout:F_p0", "layer_norm:F_affine",
         "layer_norm:nn", "conv1d:F", "sdpa:causal_kw", "sdpa:mask_pos", "ulinear:uu", "usdpa:plain", "tanh", "relu",
         "mul_scalar", "neg", "reshape", "view_t", "rotate_half", "stack_mean", "masked", "index_rows", "with_zeros",
-        "gate_softmax", "add_scalar", "add_param", "iadd_param", "view_inplace", "cmp_two", "cat_kw", "hand_scaled", "add_ones", "gather_argmax", "inf_mask_softmax"]
+        "gate_softmax", "add_scalar", "add_param", "iadd_param", "view_inplace", "cmp_two", "cat_kw", "hand_scaled", "add_ones", "gather_argmax", "inf_mask_softmax", "row_mean_gate"]
 SMALL = ["linear:nn", "gelu:F", "softmax:nn", "rotate_half", "stack_mean", "masked", "index_rows", "with_zeros", "reshape",
          "add_param", "sdpa:causal_kw", "neg"]
 RULE = (
